@@ -94,13 +94,13 @@ TEXT = {
         technique="exhaustive fault-position enumeration with cache-fingerprint oracle + exhaustive schedule exploration (serialisability); supplementary race-detector pass",
     ),
     "C18": dict(
-        level="Bounded-exhaustive model checking of the shared-informer layer: every enabled operation sequence up to the bound is executed on the real SharedInformerFactory / ResourceInformer / sharedEventHandler and compared after every step with a reference model (refcount + per-handler expected event list); concurrency below operation granularity is covered only by a supplementary free-running race-detector pass.",
-        note="Sequence length bound 5/7. Close without RemoveEventHandlers and double Close are API misuse and excluded. Lock-level interleavings are not enumerated (stated in DESIGN.md).",
-        technique="bounded-exhaustive operation-sequence enumeration against a reference model (explicit-state), supplementary race-detector pass",
+        level="Bounded-exhaustive model checking of the shared-informer layer: every enabled operation sequence up to the bound is executed on the real SharedInformerFactory / ResourceInformer / sharedEventHandler and compared after every step with a reference model (refcount + per-handler expected event list); plus exhaustive preemption-bounded schedule exploration of 2-3 threads issuing those operations concurrently, with every Lock/RLock of factory.go / informer.go a scheduling point (sync import rewritten to the harness's vsync), outcome required to equal some sequential order under the reference model. Accesses with no lock at all are only probed by a supplementary free-running race-detector pass.",
+        note="Sequence length bound 5/7. Close without RemoveEventHandlers and double Close are API misuse and excluded. Lock-level interleavings: 4 (thorough 6) concurrent programs, <= 2 (3) preemptions.",
+        technique="bounded-exhaustive operation-sequence enumeration against a reference model (explicit-state) + exhaustive preemption-bounded schedule exploration at lock granularity (linearisability vs the model); supplementary race-detector pass",
     ),
     "C20": dict(
         level="Explicit-state model checking of the hosting layer: breadth-first search over event sequences on the real reconcilers of both controller kinds, state deduplicated by (stored spec, running spec) per name - the single-name search closes (fixpoint), so event sequences of any length are covered for one name; after every event the running instances are compared with the reference model and probed with a parent event for wake-up and hook isolation.",
-        note="Behaviour build only (no worker goroutines). Two-name searches are depth-capped and reported as such.",
+        note="Behaviour units run with numWorkers=0 (the harness is the worker); a separate life-cycle unit runs real workers (numWorkers=2) over every event sequence to depth 3 on one name and asserts only the goroutine census (no worker of a stopped instance survives Stop; exactly 2 per running instance eventually). Two-name searches are depth-capped and reported as such.",
         technique="explicit-state BFS over the real reconcile function with a reference model (fixpoint for one name)",
     ),
 }
